@@ -60,6 +60,15 @@ Definition edge_eqb (a b : string * string) : bool :=
 Definition edges_incl (a b : list (string * string)) : bool :=
   forallb (fun e => existsb (edge_eqb e) b) a.
 
-Example expect_graph_is_the_models :
-  edges_incl EXPECT_GRAPH model_expect_graph = true /\ edges_incl model_expect_graph EXPECT_GRAPH = true.
-Proof. split; vm_compute; reflexivity. Qed.
+(* the handlers of the handshake (up to the server's name); every other source handler belongs to the message phase *)
+Definition handshake_sources : list string :=
+  ["rfb_RFBClient_handleInitial"; "rfb_RFBClient_handleNumberSecurityTypes"; "rfb_RFBClient_handleSecurityTypes";
+   "rfb_RFBClient_handleAuth"; "rfb_RFBClient_handleConnFailed"; "rfb_RFBClient_handleConnMessage"; "rfb_RFBClient_handleVNCAuth";
+   "rfb_RFBClient_handleDHAuth"; "rfb_RFBClient_handleDHAuthKey"; "rfb_RFBClient_handleDHAuthCert";
+   "rfb_RFBClient_handleVNCAuthResult"; "rfb_RFBClient_handleAuthFailed"; "rfb_RFBClient_handleAuthFailedMessage";
+   "rfb_RFBClient_doClientInitialization"; "rfb_RFBClient_handleServerInit"; "rfb_RFBClient_handleServerName"].
+
+Definition in_handshake (e : string * string) : bool :=
+  existsb (fun h => if string_dec (fst e) h then true else false) handshake_sources.
+Definition handshake_part (g : list (string * string)) := filter in_handshake g.
+Definition message_part (g : list (string * string)) := filter (fun e => negb (in_handshake e)) g.
